@@ -4,3 +4,8 @@ import Anysystem.Props.C17
 #print axioms Anysystem.Sim.send_cut_dropped
 #print axioms Anysystem.Sim.addProcess_fresh
 #print axioms Anysystem.Sim.crashNode_cancels
+#print axioms Anysystem.Sim.readNode_drains
+#print axioms Anysystem.Sim.handleActions_loc_outbox
+#print axioms Anysystem.Sim.handleActions_send_counts
+#print axioms Anysystem.Sim.onMessage_counts
+#print axioms Anysystem.Sim.handleActions_counts
